@@ -4,7 +4,7 @@ from __future__ import annotations
 import ast
 from typing import Any
 
-from ..astutil import call_name, cfg_of, constructs_error, error_names, norm, returns_error, short, stmt_calls, where
+from ..astutil import Locals, call_name, cfg_of, constructs_error, error_names, norm, returns_error, short, stmt_calls, where
 from ..cfg import CFG, ENTRY, EXIT
 from ..core import Report
 
@@ -50,11 +50,19 @@ def run(rep: Report, ctx: Any) -> str:
         for c in ast.walk(d):
             if isinstance(c, ast.Call) and call_name(c).endswith("add_dependencies"):
                 kws = {k.arg: norm(k.value) for k in c.keywords}
-                rep.check(kws.get("roots") == "roots" and kws.get("ref_path") == "ref_path", "R08.1", "_property_from_ref::records-own-roots",
-                          "the dependency is recorded for something else than (ref_path, roots)", where(pfr, c), lhs=kws, rhs="ref_path=ref_path, roots=roots")
+                refs = set(Locals(pfr.node).bound_from(lambda v: v == "parse_reference_path(data.ref)", "assign"))
+                rep.check(kws.get("roots") == "roots" and kws.get("ref_path") in refs, "R08.1", "_property_from_ref::records-own-roots",
+                          "the dependency is recorded for something else than (ref_path, roots)", where(pfr, c), lhs=kws,
+                          rhs="ref_path=<parse_reference_path(data.ref)>, roots=roots")
     pp = ix.func("model_property._process_properties")
-    t = norm(pp.node)
-    rep.check("schemas.add_dependencies(ref_path=ref_path, roots=roots)" in t, "R08.1", "_process_properties::allOf-reference-recorded",
+    from .c15 import allof_branch
+
+    loop_, branch_ = allof_branch(rep, pp)
+    member = norm(loop_.target)
+    refs2 = set(Locals(pp.node).bound_from(lambda v: v == f"parse_reference_path({member}.ref)", "assign"))
+    rec = [c for s_ in branch_.body for c in ast.walk(s_) if isinstance(c, ast.Call) and call_name(c).endswith("schemas.add_dependencies")
+           and {k.arg: norm(k.value) for k in c.keywords}.get("roots") == "roots" and {k.arg: norm(k.value) for k in c.keywords}.get("ref_path") in refs2]
+    rep.check(bool(rec), "R08.1", "_process_properties::allOf-reference-recorded",
               "an allOf parent is not recorded as a dependency of the child", where(pp, pp.node))
     n_calls = 0
     for f in ix.all_functions:
@@ -64,7 +72,11 @@ def run(rep: Report, ctx: Any) -> str:
                 kws = {k.arg: norm(k.value) for k in c.keywords}
                 if "roots" in params or "roots" in {n.id for n in ast.walk(f.node) if isinstance(n, ast.Name)}:
                     n_calls += 1
-                    rep.check(kws.get("roots") in ("roots", "model_roots"), "R08.1", f"{short(f)}::forwards-roots",
+                    # `roots` itself, or a local built from it (e.g. {*roots, class_info.name})
+                    lc_ = Locals(f.node)
+                    rv_ = kws.get("roots") or ""
+                    grown = bool(lc_.values_of(rv_)) and all("roots" in {x.id for x in ast.walk(v_) if isinstance(x, ast.Name)} for v_ in lc_.values_of(rv_))
+                    rep.check(rv_ == "roots" or grown, "R08.1", f"{short(f)}::forwards-roots",
                               "a nested schema is built without the roots of the enclosing schema: its references are not tied to the "
                               "enclosing model", where(f, c), lhs=kws.get("roots"), rhs="roots=roots")
                 elif f.cls is not None and f.name == "build" and f.cls.name in ("UnionProperty", "ListProperty", "ModelProperty"):
@@ -109,7 +121,10 @@ def run(rep: Report, ctx: Any) -> str:
     for f in ix.all_functions:
         if not f.module.name.startswith("openapi_python_client.parser"):
             continue
-        for var in THREADED:
+        pnames = {p_.arg for p_ in f.params}
+        state_vars = {v_ for v_ in THREADED if v_ in pnames} | set(Locals(f.node).bound_from(
+            lambda t_: t_.startswith(("Schemas(", "Parameters(")), "assign"))
+        for var in sorted(state_vars):
             assigns = []
             for n in ast.walk(f.node):
                 if isinstance(n, ast.Assign):
